@@ -331,7 +331,15 @@ class MakeValidOrientation(Contract):
     def summary_result(self, F, inp):
         from pyvc.core import pytype, is_float_type
         ty = pytype(inp["a"])
-        return F.ctx.fresh("make_valid_orientation", ty if is_float_type(ty) else float)
+        # the function is deterministic: a second call on the very same argument gives the very same result
+        memo = F.ctx.options.setdefault("__mvo_results__", [])
+        t = z3.simplify(R(inp["a"]))
+        for (t0, ty0, r0) in memo:
+            if ty0 is ty and t0.eq(t):
+                return r0
+        r = F.ctx.fresh("make_valid_orientation", ty if is_float_type(ty) else float)
+        memo.append((t, ty, r))
+        return r
 
     def post(self, F, inp, out):
         a = inp["a"]
